@@ -460,8 +460,12 @@ func (s *Store) readRootsScan(defaultToEmpty bool) (err error) {
 		if err != nil {
 			return err
 		}
-		if err := s.checkAndReadRoots(offset, length, rootsEnd); err == nil {
+		err = s.checkAndReadRoots(offset, length, rootsEnd)
+		if err == nil {
 			return nil
+		}
+		if ioErr, ok := err.(*rootsReadError); ok {
+			return ioErr.err // The file failed; that is not "no roots here".
 		}
 		atomic.AddInt64(&s.size, -1) // Roots were wrong, so keep scanning.
 	}
@@ -501,12 +505,18 @@ func (s *Store) readRootsEnd(rootsEnd []byte) (int64, uint32, error) {
 	return offset, length, nil
 }
 
+// rootsReadError marks a failure of the file itself while reading a roots
+// candidate, as opposed to a candidate that turned out not to be valid roots.
+type rootsReadError struct{ err error }
+
+func (e *rootsReadError) Error() string { return e.err.Error() }
+
 func (s *Store) checkAndReadRoots(offset int64, length uint32, rootsEnd []byte) error {
 	if offset >= 0 && offset < atomic.LoadInt64(&s.size)-int64(rootsLen) &&
 		length == uint32(atomic.LoadInt64(&s.size)-offset) {
 		data := make([]byte, atomic.LoadInt64(&s.size)-offset-int64(len(rootsEnd)))
 		if _, err := s.file.ReadAt(data, offset); err != nil {
-			return err
+			return &rootsReadError{err}
 		}
 		if bytes.Equal(MagicBeg, data[:len(MagicBeg)]) &&
 			bytes.Equal(MagicBeg, data[len(MagicBeg):2*len(MagicBeg)]) {
